@@ -112,3 +112,17 @@ impl Program {
         )
     }
 }
+
+#[cfg(feature = "verif")]
+impl Program {
+    pub fn verif_dump(&self) -> String {
+        format!(
+            "{:?}{:?}{}{:?}{}",
+            self.errors,
+            self.indirect_errors,
+            self.direct_address,
+            self.line_number,
+            self.link.verif_dump()
+        )
+    }
+}
